@@ -505,6 +505,37 @@ def produced_in_declared(ctx: Ctx) -> None:
         torch.set_default_dtype(saved)
 
 
+def constructors_reject_nonfloat(ctx: Ctx) -> None:
+    """"Non-floating dtypes are rejected" - whichever way the dtype is declared: Dtype.tla's ToNonFloat goes through to(); the
+    constructor is the other public way to declare a dtype, and a floating one given there is the declared dtype of the instrument
+    and of a derivative on it."""
+    import pfhedge.instruments as inst
+    from pfhedge.instruments import BasePrimary, EuropeanOption
+    for cname in sorted(dir(inst)):
+        cls = getattr(inst, cname)
+        if not (isinstance(cls, type) and issubclass(cls, BasePrimary) and cls is not BasePrimary):
+            continue
+        import inspect
+        if inspect.isabstract(cls):
+            continue
+        kw = {"sigma_fn": (lambda t, s: 0.2 + 0.1 * s)} if cname == "LocalVolatilityStock" else {}
+        for bad in (torch.int32, torch.int64, torch.bool, torch.complex64):
+            ctx.count(("ctor-nonfloat", cname, str(bad)), n=1)
+            try:
+                p = cls(dtype=bad, **kw)
+            except TypeError:
+                continue
+            except Exception as e:
+                ctx.violation("dtype:nonfloat-wrong-error", f"{cname}(dtype={bad}) is rejected with {type(e).__name__} instead of TypeError", {"class": cname})
+                continue
+            ctx.violation("dtype:nonfloat-accepted", f"{cname}(dtype={bad}) is accepted: the instrument declares {p.dtype}", {"class": cname, "dtype": str(bad)})
+        for good in (torch.float64, torch.float16):
+            p = cls(dtype=good, **kw)
+            ctx.count(("ctor-float", cname, str(good)), n=1)
+            if p.dtype != good or EuropeanOption(p).dtype != good:
+                ctx.violation("dtype:constructor:declared", f"{cname}(dtype={good}) declares {p.dtype}; a derivative on it {EuropeanOption(p).dtype}", {"class": cname})
+
+
 def check(ctx: Ctx) -> None:
     warnings.filterwarnings("ignore")
     saved = torch.get_default_dtype()
@@ -544,6 +575,7 @@ def check(ctx: Ctx) -> None:
         ctx.sample({"recorded_trace": {"init": traces[0]["init"], "events": traces[0]["events"][:3]}})
         repository_test_traces(ctx)
         produced_in_declared(ctx)
+        constructors_reject_nonfloat(ctx)
         # binding demonstration on behaviours generated by the specification itself (independent of /repo):
         # corrupt one logged field / drop one event -> rejected at exactly that line; untouched ones accepted
         good = [{"init": r["init"], "events": json.loads(json.dumps(r["hist"]))} for r in sim.records[:400] if len(r["hist"]) >= 7][:10]
